@@ -87,6 +87,38 @@ impl Prop for C10T {
                 }
             }
         }
+        // one history in ten is made of short single-unit messages on a SMALL buffer, so that
+        // an identification query (22 answer bytes, written in three pieces) does not fit
+        let mut n = n;
+        if rng.chance(1, 10) {
+            let small: Vec<usize> = IFACES[iface].ns.iter().copied().filter(|&x| (8..=20).contains(&x)).collect();
+            if !small.is_empty() {
+                let sn = *rng.pick(&small);
+                let shorts: Vec<&simcore::spec::Spelled> = m
+                    .spelled
+                    .iter()
+                    .filter(|sp| {
+                        let d = m.decl(sp.decl);
+                        d.params.is_empty() && !gen::is_fail(d) && sp.path.join(":").len() + 3 <= sn
+                    })
+                    .collect();
+                if !shorts.is_empty() {
+                    let k = rng.range(2, 5);
+                    let mut ms = Vec::new();
+                    for _ in 0..k {
+                        let sp = *rng.pick(&shorts);
+                        let d = m.decl(sp.decl);
+                        ms.push(crate::scenario::Msg {
+                            units: vec![crate::scenario::Unit { colon: false, mnems: sp.path.iter().map(|x| x.to_string()).collect(), query: d.query, ..Default::default() }],
+                            semi: false,
+                            lead: vec![],
+                        });
+                    }
+                    msgs = ms;
+                    n = sn;
+                }
+            }
+        }
         let mut sc = Scenario { prop: "C10".into(), seed, iface, cap, n, msgs, ..Default::default() };
         let bytes = render(&sc.msgs).0;
         sc.scheds.push(gen::sched(&mut rng, &bytes));
